@@ -522,6 +522,14 @@ def run(tier):
             continue
         seen.add(key)
         changed = {m: t for m, t in b["after"].items() if b["before"].get(m) != t}
+        if b.get("crash"):
+            # the checker gave a verdict on the original and crashes on the rewritten program
+            path = save_replay(PID, "wrap-breaks-syntax", {"kind": b["kind"], "site": b["site"], "before": b["before"], "after": b["after"]},
+                               "the checker gives the rewritten program the verdict it gave the original", {"checker_crash_after": b["crash"][:500]})
+            log(f"[c13] {b['kind']} at {b['site']} makes the checker crash: {b['crash'][:200]}")
+            report_violation(PID, path)
+            fails += 1
+            continue
         path = save_replay(PID, "wrap-breaks-syntax", {"kind": b["kind"], "site": b["site"], "before": {m: b["before"].get(m) for m in changed},
                                                         "after": changed},
                            "the rewritten program parses (the original does)", {"syntax_errors_after": True})
